@@ -44,8 +44,10 @@ def run(tier, seed):
     scratch = tempfile.mkdtemp(prefix='verif_c10_')
     try:
         with mp.Pool(16) as pool:
-            mcs = [('transfer impl Mf<=2 Mc=1 n=1 all (H1)', alg.consts(3, 'transfer', ['impl'], [1, 2] if tier == 'thorough' else [1], [1], [1, 2], False, False, False,
-                                                                      taus=['none', 'any'] if tier == 'thorough' else ['none']))]
+            # (the exhaustive enumeration grows by a factor of several thousand with every further node or inherited correction:
+            #  two fine nodes with an arbitrary inherited tau filled the disk; the thorough tier samples those instead)
+            mcs = [('transfer impl Mf=1 Mc=1 n=1 all (H1)', alg.consts(3, 'transfer', ['impl'], [1], [1], [1, 2], False, False, False,
+                                                                     taus=['none', 'any'] if tier == 'thorough' else ['none']))]
             mc_async = [(lab, alg.submit(pool, os.path.join(scratch, f'mc{i}'), c, alg.TRANSFER_INVS, workers=8, timeout=3000)) for i, (lab, c) in enumerate(mcs)]
             # documented non-theorem: without H1 the fixed point is not preserved (TLC must find the counterexample)
             noh1 = alg.submit(pool, os.path.join(scratch, 'noh1'), alg.consts(3, 'transfer', ['impl'], [1], [1], [1], False, False, False, h1=False, taus=['none']),
